@@ -186,10 +186,75 @@ func calleeForLocks(c *ssa.CallCommon) *ssa.Function {
 	return f
 }
 
+// AllRepoFuncs (set by the driver) enumerates the repository's functions; used
+// to find the callers of a helper.
+var AllRepoFuncs func() []*ssa.Function
+
+var autoEntryDone = map[*LockAnalysis]map[*ssa.Function]bool{}
+
+// autoEntry: a top-level function that is new since the anchor snapshot (a block
+// moved out of a critical section into a "…Locked" helper) is entered with the
+// locks that EVERY one of its callers holds at the call — the intersection of
+// the callers' must-sets; `go` calls hold nothing. An explicit SetEntry wins.
+func (la *LockAnalysis) autoEntry(fn *ssa.Function) {
+	if _, has := la.entry[fn]; has || fn.Parent() != nil || AllRepoFuncs == nil || IsNewFunc == nil || !IsNewFunc(fn) || fn.Pkg == nil {
+		return
+	}
+	if autoEntryDone[la] == nil {
+		autoEntryDone[la] = map[*ssa.Function]bool{}
+	}
+	if autoEntryDone[la][fn] {
+		return
+	}
+	var inter map[LockKey]bool
+	n := 0
+	for _, f := range AllRepoFuncs() {
+		if f == fn || f.Blocks == nil || TopFunc(f).Pkg != fn.Pkg {
+			continue
+		}
+		for _, ci := range CallsIn(f) {
+			if CalleeFunc(ci.Common()) != fn {
+				continue
+			}
+			if la.inprog[f] && la.before[ci] == nil {
+				// reached from inside the caller's own analysis: decide at the next
+				// (explicit) analysis of fn, when the caller's states exist
+				return
+			}
+			n++
+			if _, isGo := ci.(*ssa.Go); isGo {
+				inter = map[LockKey]bool{}
+				continue
+			}
+			if la.before[ci] == nil && !la.inprog[f] {
+				la.Analyze(f)
+			}
+			must := la.Must(ci)
+			if inter == nil {
+				inter = map[LockKey]bool{}
+				for k := range must {
+					inter[k] = true
+				}
+			} else {
+				for k := range inter {
+					if !must[k] {
+						delete(inter, k)
+					}
+				}
+			}
+		}
+	}
+	autoEntryDone[la][fn] = true
+	if n > 0 && len(inter) > 0 {
+		la.entry[fn] = inter
+	}
+}
+
 // Analyze runs the forward lockset analysis on fn.
 func (la *LockAnalysis) Analyze(fn *ssa.Function) *LockSummary {
 	la.inprog[fn] = true
 	defer delete(la.inprog, fn)
+	la.autoEntry(fn)
 	in := map[*ssa.BasicBlock]*lockState{}
 	for _, b := range fn.Blocks {
 		in[b] = newTop()
